@@ -50,6 +50,7 @@ class Failure:
         self.rendered = ''
         self.oblig = ''
         self.finding = None
+        self.desc = None
 
 
 class VerusResult:
@@ -212,7 +213,12 @@ def run(gen, gen_path, externs, extra_flags=(), timeout=1500, verify_fn=None, ex
             for fi in gen.functions:
                 if fnk and ('%s:%s' % (fi['file'], fi['path'])) == fnk.split('#')[0]:
                     tg = set(fi['tags'])
-        kt = getattr(gen, 'kind_tags', {})
+        if fnk and fnk.startswith('inserted:') and fnk[9:] in gen.inserted:
+            info = gen.inserted[fnk[9:]]
+            tg = set(info['tags'].split())
+            f.finding = info.get('finding')
+            f.desc = info.get('desc')
+        kt = getattr(gen, 'kind_tags', {}) if not (fnk and fnk.startswith('inserted:') and fnk[9:] in gen.inserted) else {}
         if kind in kt:
             tg = set(kt[kind].split())
         f.tags = tg
@@ -224,6 +230,8 @@ def run(gen, gen_path, externs, extra_flags=(), timeout=1500, verify_fn=None, ex
                 cl += '(%s)' % mk['name']
         site = ('@%s:%d' % f.site) if f.site else ''
         f.oblig = '%s:%s:%s%s%s' % (gen_unit_name(gen), fnk or '?', kind, (':' + cl) if cl else '', site)
+        if getattr(f, 'desc', None):
+            f.oblig += ' [' + f.desc + ']'
         res.failures.append(f)
     if res.status != 'undecided':
         if hard_errors:
